@@ -18,6 +18,7 @@ func init() {
 			{"C18.R1", "q", "copy gated by a per-record keep flag", c18r1},
 			{"C18.R2", "q", "keep table", c18r2},
 			{"C18.R3", "q", "drained source removed", c18r3},
+			{"C18.R3b", "q", "every file of the range is visited", c18r3b},
 			{"C18.R4", "q", "truncate on all exits and before destination switch", c18r4},
 			{"C18.R5", "q", "earlier file appended to, never overwritten", c18r5},
 		},
@@ -212,6 +213,24 @@ func c18r4(c *Ctx) {
 	if dfr != nil {
 		// the deferred cleanup must act on the destination current at exit: a plain
 		// `defer x.endGCWriting()` binds x when the defer statement runs
+		if lit, isLit := dfr.Call.Fun.(*ast.FuncLit); isLit && len(dfr.Call.Args) > 0 {
+			// arguments of a deferred literal are evaluated when the defer is registered
+			for _, e := range f.CallsIn(lit, "store.dataChunk.endGCWriting") {
+				if se, ok := prog.Unparen(e.Expr.Fun).(*ast.SelectorExpr); ok {
+					ro := prog.RootObj(info, se.X)
+					isParam := false
+					for _, fl := range lit.Type.Params.List {
+						for _, nm := range fl.Names {
+							if info.Defs[nm] == ro {
+								isParam = true
+							}
+						}
+					}
+					c.check(!isParam, R, f.Key+": deferred endGCWriting acts on the final destination", c.pos(dfr), "receiver captured, evaluated at exit",
+						"the deferred cleanup receives the destination chunk as an argument, which is evaluated when the defer is registered: after the destination rotates, the final destination is never closed nor truncated to its write head")
+				}
+			}
+		}
 		if _, isLit := dfr.Call.Fun.(*ast.FuncLit); !isLit {
 			if se, ok := prog.Unparen(dfr.Call.Fun).(*ast.SelectorExpr); ok {
 				nd := len(f.DefsOfPath(se.X))
@@ -344,4 +363,62 @@ func c18r5(c *Ctx) {
 	})
 	c.check(sawAppendHead, R, f.Key+": appended-to file starts at its size", f.Pos(), "writingHead = size when dst != src", "when the destination is an earlier file its write head is not set to its size")
 	c.check(sawRewrite && sawZero, R, f.Key+": in-place rewrite starts at 0 with rewriting set", f.Pos(), "rewriting = true; writingHead = 0 when dst == src", "the in-place rewrite no longer sets rewriting=true and writingHead=0 under dst == src")
+}
+
+// c18r3b: the source loop visits every chunk of [Begin, End]: it is left early
+// only on errors or a cancel, never by a break; an empty chunk is skipped with continue.
+func c18r3b(c *Ctx) {
+	const R = "C18.R3b"
+	f := c.fn(R, "store.GCMgr.gc")
+	if f == nil {
+		return
+	}
+	info := f.Info()
+	var loop *ast.ForStmt
+	ast.Inspect(f.Decl.Body, func(x ast.Node) bool {
+		if fs, ok := x.(*ast.ForStmt); ok && fs.Init != nil && loop == nil {
+			if as, ok := fs.Init.(*ast.AssignStmt); ok && len(as.Lhs) == 1 && prog.IsField(info, "store.GCState.Src")(as.Lhs[0]) {
+				loop = fs
+			}
+		}
+		return true
+	})
+	if loop == nil {
+		c.undec(R, f.Key, "source loop not recognised")
+		return
+	}
+	bad := ""
+	var walk func(n ast.Node, depth int)
+	walk = func(n ast.Node, depth int) {
+		ast.Inspect(n, func(x ast.Node) bool {
+			switch s := x.(type) {
+			case *ast.ForStmt:
+				if s != loop {
+					return false // breaks inside belong to the inner loop
+				}
+			case *ast.RangeStmt, *ast.SwitchStmt, *ast.SelectStmt, *ast.FuncLit:
+				return false
+			case *ast.BranchStmt:
+				if s.Tok == token.BREAK || s.Tok == token.GOTO {
+					bad = c.pos(s)
+				}
+			}
+			return true
+		})
+	}
+	walk(loop.Body, 0)
+	c.check(bad == "", R, f.Key+": source loop never left by break", c.pos(loop), "only error/cancel returns leave it", "the source loop is left with a break ("+bad+"): the files of the range behind it (e.g. after a gap left by an earlier pass) are silently not collected while the pass reports success")
+	// the empty-chunk test continues
+	okSkip := false
+	ast.Inspect(loop.Body, func(x ast.Node) bool {
+		if is, ok := x.(*ast.IfStmt); ok && prog.MentionsField(info, is.Cond, "store.dataChunk.size") && prog.MentionsField(info, is.Cond, "store.GCState.Src") {
+			if n := len(is.Body.List); n > 0 {
+				if br, ok := is.Body.List[n-1].(*ast.BranchStmt); ok && br.Tok == token.CONTINUE {
+					okSkip = true
+				}
+			}
+		}
+		return true
+	})
+	c.check(okSkip, R, f.Key+": an empty chunk inside the range is skipped, not the end", c.pos(loop), "if size <= 0 { continue }", "an empty chunk inside the range no longer leads to `continue`")
 }
